@@ -93,7 +93,7 @@ func (w *World) cut() error {
 			case "rev":
 				exp = append(exp, "rev")
 			case "sig":
-				exp = append(exp, kindsOf(p.lastSigCovered)...)
+				exp = append(exp, kindsOf(coalesceFees(p.lastSigCovered))...)
 				exp = append(exp, "sig")
 			}
 		}
@@ -111,6 +111,19 @@ func (w *World) cut() error {
 		}
 	}
 	w.feeSent = w.feeSigned
+	// Everything that survives is rebuilt from disk on both sides.
+	for _, h := range w.h {
+		if h.sent {
+			h.addRestored = true
+		}
+		if h.resolved {
+			h.resRestored = true
+		}
+	}
+	w.feeRestored = w.feeRestored[:0]
+	for k := 0; k < w.feeSent; k++ {
+		w.feeRestored = append(w.feeRestored, true)
+	}
 	for i := 0; i < 2; i++ {
 		if err := w.reload(i); err != nil {
 			return err
@@ -351,4 +364,34 @@ func (w *World) crashStep(who int, k int64, inner string) error {
 		}
 	}
 	return w.cut()
+}
+
+// coalesceFees models lnd's documented coalescing of fee updates: an update_fee
+// that no commitment covers yet is overwritten in place by a newer one
+// (updateLog.appendFeeUpdate), so of several fee updates covered by one signature
+// only the last value exists in the commit diff and is retransmitted. The peer ends
+// at the same fee rate, so this is not a lost update.
+func coalesceFees(ms []wmsg) []wmsg {
+	last := -1
+	for i, m := range ms {
+		if m.kind == "fee" {
+			last = i
+		}
+	}
+	var out []wmsg
+	first := true
+	for i, m := range ms {
+		if m.kind == "fee" {
+			if !first {
+				continue
+			}
+			// the coalesced entry keeps the position (log index) of the first
+			// update and carries the value of the last one
+			first = false
+			m = ms[last]
+			_ = i
+		}
+		out = append(out, m)
+	}
+	return out
 }
